@@ -750,7 +750,7 @@ class DeferQueue:
 
     def __init__(self):
         self._writes = []
-        self._pending_offsets = set()
+        self._pending_offsets = {}
         self._next_offset = 0
 
     def request_writes(self, offset, data):
@@ -766,23 +766,39 @@ class DeferQueue:
         each method call.
 
         """
-        if offset < self._next_offset:
+        if offset < self._next_offset and (
+            offset + len(data) <= self._next_offset
+        ):
             # This is a request for a write that we've already
             # seen.  This can happen in the event of a retry
             # where if we retry at at offset N/2, we'll requeue
             # offsets 0-N/2 again.
             return []
         writes = []
-        if offset in self._pending_offsets:
-            # We've already queued this offset so this request is
-            # a duplicate.  In this case we should ignore
-            # this request and prefer what's already queued.
+        if offset in self._pending_offsets and len(data) <= len(
+            self._pending_offsets[offset]
+        ):
+            # We've already queued this offset with at least as much
+            # data so this request is a duplicate.  In this case we
+            # should ignore this request and prefer what's already queued.
             return []
+        # A retried request may deliver its data split into different
+        # chunks than the first attempt did, so the new data may overlap
+        # with what has already been written or queued.  Queue it and trim
+        # the parts that were already written when it gets released.
         heapq.heappush(self._writes, (offset, data))
-        self._pending_offsets.add(offset)
-        while self._writes and self._writes[0][0] == self._next_offset:
-            next_write = heapq.heappop(self._writes)
-            writes.append({'offset': next_write[0], 'data': next_write[1]})
-            self._pending_offsets.remove(next_write[0])
-            self._next_offset += len(next_write[1])
+        self._pending_offsets[offset] = data
+        while self._writes and self._writes[0][0] <= self._next_offset:
+            next_write_offset, next_write_data = heapq.heappop(self._writes)
+            if self._pending_offsets.get(next_write_offset) is next_write_data:
+                del self._pending_offsets[next_write_offset]
+            seen = self._next_offset - next_write_offset
+            if seen and seen >= len(next_write_data):
+                # Everything in this write was already released.
+                continue
+            next_write_data = next_write_data[seen:]
+            writes.append(
+                {'offset': self._next_offset, 'data': next_write_data}
+            )
+            self._next_offset += len(next_write_data)
         return writes
